@@ -1677,6 +1677,13 @@ def generate():
             if g:
                 roots.append((g, None))
                 getters.append(g)
+    # implicitly invoked special methods (==, len(), in, hash(), str(), iteration, <) are not visible as calls: they are analysed
+    # as well and held to the same obligation as the getters (no parameter write, no global write)
+    for cn, ci in pkg.classes.items():
+        for mn, q in ci['methods'].items():
+            if mn.startswith('__') and mn.endswith('__') and mn not in ('__init__', '__post_init__'):
+                roots.append((q, None))
+                getters.append(q)
     tr.run(roots)
     n = len(tr.order)
     progs = [tr.progs[i] for i in range(n)]
@@ -1724,6 +1731,7 @@ def generate():
                          [f'({codes(nm)}, [{", ".join(lean_str(pn + ":" + k) for pn, k in ps)}])' for nm, ps, _ in members]))
     lines.append(chunked('analysed', '(List Nat)', [codes(nm) for nm, _, q in members if q in pkg.funcs]))
     lines.append(chunked('apiSurfaceNames', 'String', [lean_str(nm) for nm, _, _ in members]))
+    lines.append('/-- property getters and implicitly invoked special methods (__eq__, __len__, __iter__, ...) -/')
     lines.append('def getters : List Nat := [' + ', '.join(map(str, getter_ids)) + ']')
     lines.append(chunked('globalNames', 'String', [lean_str(g) for g in pkg.gnames]))
     lines.append('end Gen')
